@@ -16,14 +16,20 @@
 
    Fix_HardExit = FALSE models sys.exit() instead of os._exit() at the last rung (a seeded mutant).
    KillOnTimeout = FALSE models a terminate() that never kills.
+
+   WithUnkillable = TRUE adds members the initiator has no process handle for (a socket gateway to a server that was started by
+   hand: SocketIO.kill() is a no-op, nothing was started locally): terminate() cannot end them, but it must not wait for them
+   beyond its bound either.  Fix_BoundFinalWait = FALSE models a safe_terminate whose last wait for its helper threads is
+   unbounded once every kill function has returned ("a completed kill makes the term function return").
 *)
 EXTENDS Integers, FiniteSets, TLC
 
-CONSTANTS Fix_HardExit, KillOnTimeout,
+CONSTANTS Fix_HardExit, KillOnTimeout, WithUnkillable, Fix_BoundFinalWait,
           WithLinger     \* TRUE adds the environment "linger": the remote code has returned but left a non-daemon thread or a blocking
                          \* exit hook behind - serve() returns, the interpreter does not exit (the recorded C11 finding)
 
-VARIABLES Env,         \* the body's behaviour (chosen initially)
+VARIABLES Killable,    \* FALSE: no local process behind this member (chosen initially)
+          Env,         \* the body's behaviour (chosen initially)
           Timeout,     \* terminate(timeout) in ticks (1..3)
           InitiatorActs, \* "dies" (C11: the initiator just disappears) | "terminate" (C05)
           clock,       \* ticks since the connection was closed / terminate() was called
@@ -36,6 +42,7 @@ VARIABLES Env,         \* the body's behaviour (chosen initially)
 vars == <<clock, wphase, body, tstart, iphase, rung>>
 
 Init == /\ Env \in {"idle", "receive", "busy", "sleep", "swallow", "stopped", "dead"} \cup (IF WithLinger THEN {"linger"} ELSE {})
+        /\ Killable \in (IF WithUnkillable THEN BOOLEAN ELSE {TRUE})
         /\ Timeout \in 1..3 /\ InitiatorActs \in {"dies", "terminate"}
         /\ clock = 0 /\ wphase = (IF Env = "dead" THEN "gone" ELSE "serving")
         /\ body = (IF Env \in {"idle", "dead", "linger"} THEN "ended" ELSE "running")
@@ -74,19 +81,19 @@ IJoined ==
   /\ iphase' = "returned" /\ UNCHANGED <<clock, wphase, body, tstart, rung>>
 IKill ==       \* term did not finish within `timeout`: kill
   /\ iphase = "joining" /\ wphase # "gone" /\ clock >= Timeout
-  /\ IF KillOnTimeout THEN wphase' = "gone" /\ rung' = "sigkill" ELSE UNCHANGED <<wphase, rung>>
+  /\ IF KillOnTimeout /\ Killable THEN wphase' = "gone" /\ rung' = "sigkill" ELSE UNCHANGED <<wphase, rung>>
   /\ iphase' = "killed" /\ UNCHANGED <<clock, body, tstart>>
 IReturn ==     \* the bounded wait of safe_terminate (2 * timeout) is over, or the pair finished
-  /\ iphase = "killed" /\ (wphase = "gone" \/ clock >= 2 * Timeout)
+  /\ iphase = "killed" /\ (wphase = "gone" \/ (Fix_BoundFinalWait /\ clock >= 2 * Timeout))
   /\ iphase' = "returned" /\ UNCHANGED <<clock, wphase, body, tstart, rung>>
 
 \* time passes only when nothing else can happen now (time-outs are long compared with computation)
 CanAct == ENABLED (WSeeEof \/ WDone5 \/ WSigint \/ WDone10 \/ WHardExit \/ IJoined \/ IKill \/ IReturn)
 Tick == /\ ~CanAct /\ clock < 40 /\ clock' = clock + 1 /\ UNCHANGED <<wphase, body, tstart, iphase, rung>>
 
-Next == /\ UNCHANGED <<Env, Timeout, InitiatorActs>>
+Next == /\ UNCHANGED <<Killable, Env, Timeout, InitiatorActs>>
         /\ \/ WSeeEof \/ WDone5 \/ WSigint \/ WDone10 \/ WHardExit \/ IJoined \/ IKill \/ IReturn \/ Tick
-Spec == Init /\ [][Next]_<<vars, Env, Timeout, InitiatorActs>> /\ WF_<<vars, Env, Timeout, InitiatorActs>>(Next)
+Spec == Init /\ [][Next]_<<vars, Killable, Env, Timeout, InitiatorActs>> /\ WF_<<vars, Killable, Env, Timeout, InitiatorActs>>(Next)
 
 \* ------------------------------------------------------------- properties
 \* C11: whatever the body does (except being SIGSTOPped, which only the initiator's SIGKILL can end), the worker
@@ -99,5 +106,6 @@ ExpectedRung ==
 \* C05: terminate returns within 2 * timeout (+1 tick), and then the child is gone
 TerminateReturns == InitiatorActs = "terminate" => <>(iphase = "returned")
 TerminatePrompt == (InitiatorActs = "terminate" /\ iphase # "returned") => clock <= 2 * Timeout + 1
-NoChildLeft == (InitiatorActs = "terminate" /\ iphase = "returned") => wphase = "gone"
+\* (only processes that were started locally for a member are the initiator's to end)
+NoChildLeft == (InitiatorActs = "terminate" /\ iphase = "returned" /\ Killable) => wphase = "gone"
 =============================================================================
